@@ -99,7 +99,8 @@ func parseField(in string, maxIdx int64, enableNumKeys bool) field {
 		// If the idx > opts.maxIdx treat it as a regular named field.
 		// This preserves the current behavour for small index fields values (<= opts.maxIdx)
 		// and prevents large memory allocations or OOM if the string is large numeric value
-		if err == nil && idx <= int64(maxIdx) {
+		// A negative number is no index, it is a regular named field as well.
+		if err == nil && idx <= int64(maxIdx) && idx >= 0 {
 			return idxField{int(idx)}
 		}
 	}
